@@ -683,3 +683,5 @@ def _run(world: World, plan):
     sig = sorted((ep['kind'], ep['obf'], ep['typ'], ep['end']) for ep in episodes)
     seqs = sorted(tuple((s.name, cr.name) for (s, cr, _) in r['states']) for r in mon.values() if r['is_peer'])
     return common.finish(world, nontrivial, [sig, seqs, plan['mode']])
+
+INFO['rule'] += ' Round-5 additions: end disconnect_unsent (the application disconnects while > 64 KiB sit in the send path towards a peer that stopped reading); the simulated transport defers connection_lost while unsent data is in flight.'
